@@ -353,6 +353,13 @@ def conflicting_parameters(ctx, dist):
     add("alg: protected A128KW vs per-recipient A256KW", {"protected": {"alg": "A128KW", "enc": "A128GCM"}}, {"header": {"alg": "A256KW"}}, kw)
     add("alg: shared unprotected A128KW vs per-recipient A256KW", {"protected": {"enc": "A128GCM"}, "unprotected": {"alg": "A128KW"}}, {"header": {"alg": "A256KW"}}, kw)
     add("enc: protected A128GCM vs shared unprotected A256GCM", {"protected": {"alg": "A128KW", "enc": "A128GCM"}, "unprotected": {"enc": "A256GCM"}}, None, kw)
+    # the caller names one key-management algorithm, the KEY declares another one it could also serve: refused, or done with
+    # the caller's -- never silently with the key's (the product must open under the header it carries, the key's alg removed)
+    for kalg, calg, klen_ in (("A128GCMKW", "A128KW", 16), ("A128KW", "A128GCMKW", 16), ("A256KW", "A256GCMKW", 32), ("PBES2-HS256+A128KW", "A128KW", 16)):
+        kk = G.oct_key(rnd, klen_, alg=kalg)
+        add("alg: caller %s in protected, key declares %s" % (calg, kalg), {"protected": {"alg": calg, "enc": "A128GCM"}}, None, kk)
+        add("alg: caller %s in shared unprotected, key declares %s" % (calg, kalg), {"protected": {"enc": "A128GCM"}, "unprotected": {"alg": calg}}, None, kk)
+        add("alg: caller %s in per-recipient header, key declares %s" % (calg, kalg), {"protected": {"enc": "A128GCM"}}, {"header": {"alg": calg}}, kk)
     outs = G.harness(bdir, req)
     dec, dmeta = [], []
     for r, o, (what, key) in zip(req, outs, meta):
@@ -360,6 +367,15 @@ def conflicting_parameters(ctx, dist):
             rep.violation("conflict:crash", "crash: " + o[:200], {"case": r})
         elif o != "ERR":
             dkey = ec if key.get("kty") == "EC" else key
+            if "key declares" in what:
+                dkey = {m: v for m, v in key.items() if m != "alg"}
+                tk = json.loads(o)
+                mh = dict(tk.get("header") or {})
+                mh.update(tk.get("unprotected") or {})
+                mh.update(json.loads(G.unb64(tk["protected"])) if isinstance(tk.get("protected"), str) else {})
+                calg_ = what.split("caller ")[1].split(" ")[0]
+                if mh.get("alg") != calg_:
+                    rep.violation("conflict:caller-alg-replaced", "%s: the result names %r" % (what, mh.get("alg")), {"case": r[:1500], "implementation": o[:600]})
             dec.append("jwedec\t%s\t-\t%s" % (o, J(dkey)))
             dmeta.append((what, r))
     for c, o, (what, r) in zip(dec, G.harness(bdir, dec), dmeta):
